@@ -271,6 +271,19 @@ Guard(s, e) ==
     [] n = "open_bundled_position" -> OpenBundledGuard(s, e)
     [] n = "close_bundled_position" -> CloseBundledGuard(s, e)
     [] n = "delete_position_bundle" -> DeleteBundleGuard(s, e)
+    \* creation instructions: who may create, and what the new account is attached to
+    [] n = "initialize_config" -> Id(e, "funder") = "admin" /\ Signed(e, "funder")
+    [] n \in {"initialize_pool", "initialize_pool_v2"} ->
+         LET c == Id(e, "whirlpools_config") t == Id(e, "fee_tier") IN
+         c \in DOMAIN s.cfg /\ t \in DOMAIN s.tier /\ s.tier[t].cfg = c /\ Signed(e, "funder")
+    [] n = "initialize_pool_with_adaptive_fee" ->
+         LET c == Id(e, "whirlpools_config") t == Id(e, "adaptive_fee_tier") IN
+         /\ c \in DOMAIN s.cfg /\ t \in DOMAIN s.atier /\ s.atier[t].cfg = c /\ Signed(e, "funder")
+         /\ Signed(e, "initialize_pool_authority")
+         /\ (s.atier[t].initPoolAuth = "none" \/ Id(e, "initialize_pool_authority") = s.atier[t].initPoolAuth)
+    [] n \in {"initialize_tick_array", "initialize_dynamic_tick_array", "open_position", "open_position_with_metadata", "open_position_with_token_extensions"} ->
+         IsPool(s, Id(e, "whirlpool")) /\ Signed(e, "funder")
+    [] n \in {"initialize_position_bundle", "initialize_position_bundle_with_metadata"} -> Signed(e, "funder")
     [] OTHER -> TRUE
 
 (* the authority part alone (C04): who must have signed *)
